@@ -69,7 +69,7 @@ impl Stride {
                 true
             }
             Stride::Striding(stride, count) => {
-                if item == *stride * *count {
+                if stride.checked_mul(*count) == Some(item) {
                     *count += 1;
                     true
                 } else if item == *stride * (*count - 1) {
